@@ -93,6 +93,9 @@ pub fn from_ipp_value(v: &IppValue) -> MVal {
         IppValue::Other { tag, data } => MVal::Other { tag: *tag, data: data.to_vec() },
         IppValue::Array(vs) => MVal::Set(vs.iter().map(from_ipp_value).collect()),
         IppValue::Collection(m) => MVal::Coll(m.iter().map(|(k, v)| (k.clone(), from_ipp_value(v))).collect()),
+        // tolerate additions to the library's value enum: an unknown variant maps to a value no generator produces
+        #[allow(unreachable_patterns)]
+        other => MVal::Text { tag: 0x00, s: format!("<IppValue variant unknown to the harness: {other:?}>") },
     }
 }
 
@@ -126,6 +129,54 @@ pub fn delim(tag: u8) -> DelimiterTag {
 
 /// Build the library message for a model through the public API only
 /// (`groups_mut().push` so that repeated and empty groups are expressible).
+/// can this model be built through IppAttributes::add alone? (one group per kind, no empty group)
+pub fn addable(m: &Model) -> bool {
+    let mut seen = std::collections::HashSet::new();
+    m.groups.iter().all(|g| !g.attrs.is_empty() && seen.insert(g.tag))
+}
+
+/// the same message as `to_ipp`, but built only with IppAttributes::add, the way applications do: attributes of a group in
+/// a varying order, some of them first added with another value and then replaced (`salt` varies the choices)
+pub fn to_ipp_via_add(m: &Model, salt: u64) -> IppRequestResponse {
+    let mut r = IppRequestResponse::new_response(IppVersion(m.version), StatusCode::SuccessfulOk, m.id);
+    r.header_mut().operation_or_status = m.code;
+    r.attributes_mut().groups_mut().clear();
+    let mut x = salt.wrapping_mul(0x9E3779B97F4A7C15) | 1;
+    let mut next = move || {
+        x ^= x << 13;
+        x ^= x >> 7;
+        x ^= x << 17;
+        x
+    };
+    for g in &m.groups {
+        let mut items: Vec<(&String, &MVal)> = g.attrs.iter().collect();
+        for i in (1..items.len()).rev() {
+            let j = (next() % (i as u64 + 1)) as usize;
+            items.swap(i, j);
+        }
+        let mut pending: Vec<(&String, &MVal)> = vec![];
+        for (k, v) in items {
+            match next() % 4 {
+                // added with a decoy value now, replaced by the real one later (after further additions)
+                0 => {
+                    r.attributes_mut().add(delim(g.tag), IppAttribute::new(k, IppValue::Integer(-77)));
+                    pending.push((k, v));
+                }
+                // decoy immediately followed by the real value
+                1 => {
+                    r.attributes_mut().add(delim(g.tag), IppAttribute::new(k, IppValue::Keyword("decoy".into())));
+                    r.attributes_mut().add(delim(g.tag), IppAttribute::new(k, to_ipp_value(v)));
+                }
+                _ => r.attributes_mut().add(delim(g.tag), IppAttribute::new(k, to_ipp_value(v))),
+            }
+        }
+        for (k, v) in pending {
+            r.attributes_mut().add(delim(g.tag), IppAttribute::new(k, to_ipp_value(v)));
+        }
+    }
+    r
+}
+
 pub fn to_ipp(m: &Model) -> IppRequestResponse {
     let mut r = IppRequestResponse::new_response(IppVersion(m.version), StatusCode::SuccessfulOk, m.id);
     r.header_mut().operation_or_status = m.code;
